@@ -26,11 +26,21 @@ struct Case {
     seq: Vec<Op>,
 }
 
+/// How much is done per crash state.
+#[derive(Clone, Copy, Debug, PartialEq, Eq, PartialOrd, Ord)]
+enum Effort {
+    /// cold read vs {old,new}; collect_garbage; re-read through three
+    /// instances; direct inner-store comparison
+    Light,
+    /// + collect_garbage interrupted after each of its mutations; recovery puts
+    Standard,
+    /// + every single operation of the alphabet from the crash state
+    Full,
+}
+
 #[derive(Clone, Copy)]
 struct Cfg {
-    /// After recovery, additionally run every single operation of the
-    /// alphabet from the crash state and compare with the model.
-    recovery_ops: bool,
+    effort: Effort,
 }
 
 #[derive(Default)]
@@ -156,6 +166,9 @@ fn check_state(
             );
         }
     }
+    if cfg.effort == Effort::Light {
+        return v1;
+    }
     // nested: the collection itself dies after each of its own mutations
     let gcj = ctl2.journal();
     let mut partial = content.clone();
@@ -184,39 +197,8 @@ fn check_state(
         }
     }
 
-    // --- 3. recovery continues: a new put must succeed and read back
-    for (phase, base) in [("recovery-put", content), ("recovery-put-after-gc", &after)] {
-        let inner_r = ctlstore::restore(base);
-        let (wr, _) = fresh(kind, &inner_r);
-        let mut m = m1.clone();
-        for key in 0..2u8 {
-            let op = Op::Put {
-                k: key,
-                v: RECOVERY_TAGS[key as usize],
-            };
-            out.add("recovery_puts", 1);
-            if let Err(e) = util::block_on(run_op(&wr, &op)) {
-                report(out, phase, "put-failed", format!("{} failed: {e}", op.label()));
-                continue;
-            }
-            m = model_step(&m, &op).0;
-            let (wf, _) = fresh(kind, &inner_r);
-            for (who, w) in [("writing instance", &wr), ("fresh instance", &wf)] {
-                let v = util::block_on(observe_all(w.os()));
-                if v.as_model().as_ref() != Some(&m) {
-                    report(
-                        out,
-                        phase,
-                        "put-not-read-back",
-                        format!("after {} via {who}: {} expected {}", op.label(), v.describe(), describe_model(&m)),
-                    );
-                }
-            }
-        }
-    }
-
-    // --- 4. (optional) every single operation from the crash state
-    if cfg.recovery_ops {
+    // --- 3. (optional) every single operation from the crash state
+    if cfg.effort == Effort::Full {
         for op in alphabet(RECOVERY_TAGS[0] as usize - 1) {
             out.add("recovery_ops", 1);
             clock(2_000_000);
@@ -241,6 +223,45 @@ fn check_state(
                     "recovery-op",
                     "wrong-state",
                     format!("after {}: {} expected {}", op.label(), v.describe(), describe_model(&want)),
+                );
+            }
+        }
+    }
+
+    // --- 4. recovery continues: new puts must succeed and read back — on the
+    // crash state as it is, and on the collected one
+    clock(3_000_000);
+    let inner_pre = ctlstore::restore(content);
+    for (phase, store_r) in [("recovery-put", &inner_pre), ("recovery-put-after-gc", &inner)] {
+        let (wr, _) = fresh(kind, store_r);
+        let mut m = m1.clone();
+        let mut all_ok = true;
+        for key in 0..2u8 {
+            let op = Op::Put {
+                k: key,
+                v: RECOVERY_TAGS[key as usize],
+            };
+            out.add("recovery_puts", 1);
+            if let Err(e) = util::block_on(run_op(&wr, &op)) {
+                report(out, phase, "put-failed", format!("{} failed: {e}", op.label()));
+                all_ok = false;
+                break;
+            }
+            m = model_step(&m, &op).0;
+        }
+        if !all_ok {
+            continue;
+        }
+        let (wf, _) = fresh(kind, store_r);
+        let readers = [("writing instance", "put-not-read-back", &wr), ("fresh instance", "put-not-read-back", &wf)];
+        for (who, class, w) in readers {
+            let v = util::block_on(observe_all(w.os()));
+            if v.as_model().as_ref() != Some(&m) {
+                report(
+                    out,
+                    phase,
+                    class,
+                    format!("after the recovery puts via {who}: {} expected {}", v.describe(), describe_model(&m)),
                 );
             }
         }
@@ -357,9 +378,18 @@ fn nth_seq(depth: usize, mut idx: u64) -> Vec<Op> {
 
 fn main() {
     let mut run = Run::from_args("C08", "crash", "fault_enumeration");
-    // quick tier: the 13-operation recovery fan-out only up to this sequence length
-    let recovery_ops_depth = run.tier.pick(2usize, usize::MAX);
-    let cfg = Cfg { recovery_ops: true };
+    // per-crash-state effort by sequence length: (full up to, standard up to); light beyond
+    let (full_upto, standard_upto) = run.tier.pick((2usize, 3usize), (4usize, 4usize));
+    let effort_for = |depth: usize| {
+        if depth <= full_upto {
+            Effort::Full
+        } else if depth <= standard_upto {
+            Effort::Standard
+        } else {
+            Effort::Light
+        }
+    };
+    let cfg = Cfg { effort: Effort::Full };
 
     if let Some(file) = run.replay_file.clone() {
         let v: Value = serde_json::from_slice(&std::fs::read(&file).expect("read replay")).expect("json");
@@ -381,14 +411,14 @@ fn main() {
         run.finish();
     }
 
-    let max_depth = run.tier.pick(3usize, 6usize);
-    let must_depth = run.tier.pick(3usize, 4usize);
+    let max_depth = run.tier.pick(3usize, 5usize);
     let base = alphabet(0).len() as u64;
     let deadline = Instant::now() + Duration::from_secs_f64(run.remaining_s());
     let mut completed: Option<usize> = None;
     let chunk = 64u64;
 
     'depths: for depth in 0..=max_depth {
+        let level_started = run.elapsed();
         let total = base.pow(depth as u32);
         let mut items: Vec<(Kind, Start, u64, u64)> = Vec::new();
         for kind in [Kind::Meta, Kind::Enc] {
@@ -424,7 +454,7 @@ fn main() {
                     )
                     && matches!(case.start, Start::Empty | Start::LegacyAB(LegacyFlavor::Plain));
                 let cfg = Cfg {
-                    recovery_ops: depth <= recovery_ops_depth,
+                    effort: effort_for(depth),
                 };
                 run_case(&case, cfg, want_sample, &mut out);
             }
@@ -465,12 +495,14 @@ fn main() {
         if had_violation {
             break;
         }
-        // do not start a level that cannot finish: each level costs ~13x the previous one
-        if depth >= must_depth && depth < max_depth {
-            let spent = run.elapsed();
-            if spent * 14.0 > run.budget_s {
+        // do not start a level that cannot finish: a level costs ~13x the
+        // previous one (about a third of that when the effort drops to light)
+        let level_s = run.elapsed() - level_started;
+        if depth < max_depth {
+            let factor = if effort_for(depth + 1) < effort_for(depth) { 5.0 } else { 14.0 };
+            if run.elapsed() + level_s * factor > run.budget_s {
                 run.cap_hit(&format!(
-                    "time budget: depth {} not started (estimated cost exceeds the budget); all sequences of length <= {depth} completed",
+                    "time budget: length {} not started (estimated cost exceeds the budget); all sequences of length <= {depth} completed",
                     depth + 1
                 ));
                 break;
@@ -479,14 +511,18 @@ fn main() {
     }
     run.set("max_sequence_length_completed", json!(completed));
     run.set("alphabet_size", json!(base));
+    run.set(
+        "effort_by_length",
+        json!((0..=max_depth).map(|d| format!("{d}:{:?}", effort_for(d))).collect::<Vec<_>>()),
+    );
     run.rule(
         "every sequence of <= N operations over {put, multipart, copy, rename(overwrite|create), delete, collect_garbage} x keys {a, dir/b} \
          (13 operations per position, distinct value per position), for MetaStore and EncryptedStore (chunk 16 B), from start states \
          {empty, legacy a, legacy a+b, legacy a + orphaned data/b} (+ 0.9.x sealed legacy for EncryptedStore); \
          one evaluation = one crash state = initial content + a prefix of the inner-store mutation journal ending inside or at the end of the last operation, \
          examined by cold read (get, get_range, get_ranges, head, list per key vs {old,new}), collect_garbage + re-read through three instances + direct inner-store comparison, \
-         collect_garbage itself interrupted after each of its mutations, recovery puts, and every single operation from the crash state \
-         (that fan-out: all lengths in the thorough tier, lengths <= 2 in the quick tier); \
+         collect_garbage itself interrupted after each of its mutations, recovery puts read back through the writing and a fresh instance, \
+         and every single operation from the crash state (effort by sequence length: see effort_by_length); \
          distinct non-trivial = crash states strictly inside an operation (some but not all of its mutations landed)",
     );
     run.assume("each inner-store mutation (put, multipart complete, copy, delete) is atomic and durable in order: a crash state is a prefix of the mutation journal");
